@@ -45,7 +45,7 @@ extern int mpt_path_del(MPT_STRUCT(path) *path)
 		part  = 0;
 		
 		/* find last separator */
-		while (--len && (*(data) != path->sep)) {
+		while (--len && (*(data) != (uint8_t) path->sep)) {
 			++part; --data;
 		}
 	}
